@@ -88,6 +88,10 @@ class Report:
         except Exception:  # noqa
             self.errors.append("pyvc crashed: " + traceback.format_exc()[-1500:])
             return
+        from pyvc import pool as _pool
+        if _pool.CRASHES:
+            print(f"NOTE [{self.pid}] a solver worker process died and its tasks were run again: {_pool.CRASHES}", flush=True)
+            del _pool.CRASHES[:]
         per_fn = {}
         for r in results:
             for k_, note_ in (r.get("assumed_used") or {}).items():
